@@ -392,23 +392,16 @@ func coveredHelpers(c *core.Ctx, checked map[*ssa.Function]bool, isCand func(*ss
 	return out
 }
 
-func runC01(c *core.Ctx) {
-	c.Doc("addr-term", 4, "every unsafe dereference is base + L.Offset + L.RootOffs typed *A")
-	c.Doc("addr-agree", 1, "the four accessor methods use the same address term")
-	c.Doc("put-effect", 2, "Put/Putt: exactly one store, of a, through that pointer; container returned unchanged")
-	c.Doc("get-effect", 2, "Get/Gett: no store; returns the loaded value")
-	c.Doc("unsafe-census", 1, "every unsafe.Pointer conversion of every loaded package is part of a checked address term")
-	c.Doc("offs-writers", 1, "RootOffs / StructField are written only by the unfolding function's literals")
-	c.Doc("offs-term", 3, "RootOffs := offset parameter; StructField := cat.Field(i); recursion passes offset + cat.Field(i).Offset; root call passes 0")
-	c.Doc("pairing", 36, "ForProductN / ForSpectrumN / NewN / FMapN positional consistency")
-
+// lensAccessorRules: the address term and the effect of the four accessor methods (shared by C01 and C02, whose
+// "reads and writes stay inside that field" is the same mechanism). Returns the analysed accessor functions.
+func lensAccessorRules(c *core.Ctx) map[*ssa.Function]bool {
+	checked := map[*ssa.Function]bool{}
 	nt := lensType(c)
 	if nt == nil {
 		c.Undecided("addr-term", "optics.lens", 0, "cannot discover the concrete lens type from NewLens")
-		return
+		return nil
 	}
 	ms := methodsOf(c, nt)
-	checked := map[*ssa.Function]bool{}
 	norm := map[string]string{}
 	dispField := lensDispField(nt)
 	usedDisp := false
@@ -537,6 +530,23 @@ func runC01(c *core.Ctx) {
 	}
 	c.Check(agree, "addr-agree", "optics."+nt.Obj().Name(), nt.Obj().Pos(), "4 methods, one address term", "the accessor methods do not use the same address term: %v", norm)
 
+	return checked
+}
+
+func runC01(c *core.Ctx) {
+	c.Doc("addr-term", 4, "every unsafe dereference is base + L.Offset + L.RootOffs typed *A")
+	c.Doc("addr-agree", 1, "the four accessor methods use the same address term")
+	c.Doc("put-effect", 2, "Put/Putt: exactly one store, of a, through that pointer; container returned unchanged")
+	c.Doc("get-effect", 2, "Get/Gett: no store; returns the loaded value")
+	c.Doc("unsafe-census", 1, "every unsafe.Pointer conversion of every loaded package is part of a checked address term")
+	c.Doc("offs-writers", 1, "RootOffs / StructField are written only by the unfolding function's literals")
+	c.Doc("offs-term", 3, "RootOffs := offset parameter; StructField := cat.Field(i); recursion passes offset + cat.Field(i).Offset; root call passes 0")
+	c.Doc("pairing", 36, "ForProductN / ForSpectrumN / NewN / FMapN positional consistency")
+
+	checked := lensAccessorRules(c)
+	if checked == nil {
+		return
+	}
 	// ---- unsafe census over all packages --------------------------------------
 	nConv, stray := 0, 0
 	// a helper whose every use is a plain call from a checked method (or from another such helper) was analysed
@@ -593,6 +603,10 @@ func runC01(c *core.Ctx) {
 	// derivation by name / by type resolves the first exactly matching entry: shared with C03
 	c.Doc("first-match", 3, "lookups return the first element matching exactly")
 	firstMatchRules(c)
+	// derivation by names pairs the i-th name with the i-th lens: hseq.New(names...) keeps the requested order (shared
+	// with C03)
+	c.Doc("names-order", 1, "New(names...)[i] = ForName(listing, names[i])")
+	namesOrderRule(c)
 }
 
 func effRule(w bool) string {
